@@ -126,3 +126,27 @@ Theorem C08_restore_only_into_absent_path : forall (w1 : world sym) rp goal tbl 
   nth_error (n_targets nd) i = Some p -> fget (fn_world st) p = None.
 Proof. exact fine_restore_into_absent_sym. Qed.
 Print Assumptions C08_restore_only_into_absent_path.
+
+(* ---- clean under every interleaving of its rule threads (round 4; Model/CleanFine.v, Proofs/CleanFine*.v) ----
+   Every step of every run of a clean keeps every content that is in the cache or at a path of ANY protected set. *)
+From Coq Require Import Relations.
+From Ruler Require Import Bytes AList RuleSyntax TopoSort World Work Build Ops Inv InvFacts BuildSpec C01Facts C02Sym CoarseInv C18CoarseFacts Sched Fine FineCor CleanFine CleanFineBasic CleanFineInv CleanFineFacts.
+Local Open Scope nat_scope.
+
+Theorem C08_clean_every_step_of_every_interleaving_keeps_content : forall (w : world sym) rp goal w1 tbl pack ch k st',
+  disk_inv sym_eqb SContent w -> init_dir sym w = Ok (w1, tbl) -> get_nodes sym w1 rp goal = Ok pack ->
+  let blobs := node_blobs SContent tbl (p_nodes pack) in
+  let st := crun_sym blobs ch (cinit sym w1 (length blobs)) in
+  cstep_sym blobs st k = Some st' ->
+  forall paths c, protected_content sym_eqb paths (cs_world st) c -> protected_content sym_eqb paths (cs_world st') c.
+Proof. exact clean_fine_keeps_content_sym. Qed.
+Print Assumptions C08_clean_every_step_of_every_interleaving_keeps_content.
+
+Theorem C08_clean_every_step_any_clock : forall (w : world sym) rp goal w1 tbl pack ch k st',
+  coarse_inv sym_eqb SContent w -> init_dir sym w = Ok (w1, tbl) -> get_nodes sym w1 rp goal = Ok pack ->
+  let blobs := node_blobs SContent tbl (p_nodes pack) in
+  let st := crun_sym blobs ch (cinit sym w1 (length blobs)) in
+  cstep_sym blobs st k = Some st' ->
+  forall paths c, protected_content sym_eqb paths (cs_world st) c -> protected_content sym_eqb paths (cs_world st') c.
+Proof. exact clean_fine_keeps_content_coarse_sym. Qed.
+Print Assumptions C08_clean_every_step_any_clock.
